@@ -49,6 +49,9 @@ func knownClassesOfR(trees []influxql.Expr, rootRegexSafe bool) []string {
 				if x.Val%1000 != 0 {
 					set[clsSubMicroDur] = true
 				}
+				if int64(x.Val) == math.MinInt64 {
+					set[clsMinDuration] = true
+				}
 			case *influxql.VarRef:
 				if strings.EqualFold(x.Val, "inf") || strings.EqualFold(x.Val, "nan") {
 					set[clsInfNanIdent] = true
